@@ -33,8 +33,8 @@ theorem SDevice_constraints_soc (r : ℕ → ℝ) (i : ℕ) : sd% Gen.SDevice_co
   simp only [SDevice_base, utils_sustainment_matrix, sgnPow_eq]
   all_goals (try first
     | rfl
-    | (congr 1; first | rfl | ring1 | (vsum; vdone))
-    | (congr 1 <;> first | rfl | ring1 | (vsum; vdone)))
+    | (simp only [sumTo_eq_sum, mul_comm, mul_left_comm, mul_assoc] <;> ring1)
+    | (congr 1 <;> first | rfl | ring1 | (apply sumTo_congr; intro k _; vclose)))
 
 theorem SDevice_constraints_fun0 (r : ℕ → ℝ) (i : ℕ) :
     sd% Gen.SDevice_constraints_fun0 r i = socDot n Q% r i := by
